@@ -635,6 +635,9 @@ func TestGen(t *testing.T) {
 		}
 		c.Add(vlib.Case{ID: pid, Term: vlib.App("Conv", vlib.NI(pid), opsT, obsT), Tags: ptags, Trivial: !(hasPod && hasSlice), Sample: sample})
 	}
+	if err := runExtras(c); err != nil {
+		t.Fatalf("extras: %v", err)
+	}
 	if err := c.Flush(); err != nil {
 		t.Fatal(err)
 	}
